@@ -11,8 +11,19 @@ TOL = 1e-10
 
 
 def pick_problem(rng, Lmin=1, Lmax=7, maxdim=512):
-    src = str(rng.choice(['model', 'model', 'hermitian-random', 'hermitian-charge-free', 'nn-pattern', 'hermitian-funnel']))
-    if src == 'nn-pattern':
+    src = str(rng.choice(['model', 'model', 'hermitian-random', 'hermitian-charge-free', 'nn-pattern', 'hermitian-funnel', 'long-range']))
+    if src == 'long-range':
+        # terms whose end points are not neighbours (hopping X_i S ... S X^dagger_j across SPECTATOR sites that carry only identities, strings and fields),
+        # compiled from operator chains
+        d = int(rng.choice([2, 2, 3]))
+        lmax = Lmax
+        while d ** lmax > maxdim and lmax > 1:
+            lmax -= 1
+        L = int(rng.integers(max(Lmin, min(3, lmax)), lmax + 1))
+        qd = np.array([[1, -1], [1, 0, -1]][d - 2]) if rng.random() < 0.7 else np.zeros(d, dtype=int)
+        H = gen.long_range_hamiltonian(rng, qd, L, cplx=bool(rng.random() < 0.6))
+        label = 'long-range'
+    elif src == 'nn-pattern':
         # hand-built nearest-neighbour Hamiltonian with site-dependent parameter patterns (staggered, impurity, period 3, blocks, ...)
         d = int(rng.choice([2, 2, 3]))
         lmax = Lmax
